@@ -335,6 +335,11 @@ func driverMain(args []string) int {
 			inconclusive = append(inconclusive, "observation class never seen: "+f)
 		}
 	}
+	for _, f := range p.SelfCheck {
+		if merged.Classes[f] != 0 {
+			inconclusive = append(inconclusive, "reference self-check failed: "+f)
+		}
+	}
 	if merged.Evaluations == 0 {
 		inconclusive = append(inconclusive, "no evaluations")
 	}
